@@ -556,7 +556,14 @@ func checkC14(c *km.Ctx) {
 				cl, idx := callRes(f.X)
 				return f.Op == token.ILLEGAL && f.Pol && cl != nil && idx == 0 && strings.HasPrefix(km.CalleeFull(cl.Common()), "github.com/pquerna/otp/totp.Validate")
 			}}
-			okReset := len(stt) > 0 && stt.All(func(k km.Conj) bool { return olderThanWindow(k) || s.Holds(k, validated) })
+			pred := func(st km.DNF, at ssa.Instruction) bool {
+				return len(st) > 0 && st.All(func(k km.Conj) bool { return olderThanWindow(k) || s.Holds(k, validated) })
+			}
+			okReset := pred(stt, st)
+			if !okReset && fnOwn != vt {
+				// the reset sits in a helper of the validation path (a method of the record): what holds at its calls
+				okReset, _ = s.HoldsOnAllPaths(st, pred, map[*ssa.Function]bool{vt: true}, 2)
+			}
 			r.Add("R-C14-4", km.FuncName(fnOwn), "failure count reset", posOf(c, st), "only when the last failure is older than the 24 h window, or after a code was accepted", clipS(stt.String(), 200), okReset)
 		})
 	}
